@@ -240,10 +240,9 @@ func (f *file) ReadBlob(length int) (blob blob.Blob, n int, err error) {
 }
 
 func (f *file) ReadAt(p []byte, off int64) (n int, err error) {
-	if f.closed {
-		return 0, f.closedErr("readat")
-	}
-	blob, n, err := f.ReadBlobAt(len(p), off)
+	f.fs.opMu.Lock()
+	defer f.fs.opMu.Unlock()
+	blob, n, err := f.readBlobAt(len(p), off)
 	if blob != nil {
 		copy(p, blob.Bytes())
 	}
@@ -251,6 +250,12 @@ func (f *file) ReadAt(p []byte, off int64) (n int, err error) {
 }
 
 func (f *file) ReadBlobAt(length int, off int64) (b blob.Blob, n int, err error) {
+	f.fs.opMu.Lock()
+	defer f.fs.opMu.Unlock()
+	return f.readBlobAt(length, off)
+}
+
+func (f *file) readBlobAt(length int, off int64) (b blob.Blob, n int, err error) {
 	if f.closed {
 		return nil, 0, f.closedErr("readat")
 	}
@@ -281,6 +286,8 @@ func (f *file) Seek(offset int64, whence int) (int64, error) {
 	if f.closed {
 		return 0, f.closedErr("seek")
 	}
+	f.fs.opMu.Lock()
+	defer f.fs.opMu.Unlock()
 	newOffset := f.offset
 	switch whence {
 	case io.SeekStart:
@@ -308,6 +315,8 @@ func (f *file) WriteBlob(p blob.Blob) (n int, err error) {
 	if f.closed {
 		return 0, f.closedErr("write")
 	}
+	f.fs.opMu.Lock()
+	defer f.fs.opMu.Unlock()
 	if f.flag&hackpadfs.FlagAppend != 0 && p.Len() > 0 {
 		// append mode always writes at the end and leaves the offset after the written bytes
 		f.offset = int64(f.Size())
@@ -325,6 +334,8 @@ func (f *file) WriteBlobAt(p blob.Blob, off int64) (n int, err error) {
 	if f.closed {
 		return 0, f.closedErr("writeat")
 	}
+	f.fs.opMu.Lock()
+	defer f.fs.opMu.Unlock()
 	if f.flag&hackpadfs.FlagAppend != 0 {
 		// like os.File, a file opened with O_APPEND does not support WriteAt
 		return 0, &hackpadfs.PathError{Op: "writeat", Path: f.path, Err: hackpadfs.ErrInvalid}
@@ -382,6 +393,12 @@ func (f *file) Truncate(size int64) error {
 	if f.closed {
 		return f.closedErr("truncate")
 	}
+	f.fs.opMu.Lock()
+	defer f.fs.opMu.Unlock()
+	return f.truncate(size)
+}
+
+func (f *file) truncate(size int64) error {
 	if f.Mode().IsDir() {
 		return &hackpadfs.PathError{Op: "truncate", Path: f.path, Err: hackpadfs.ErrIsDir}
 	}
@@ -418,6 +435,8 @@ func (f *file) ReadDir(n int) ([]hackpadfs.DirEntry, error) {
 	if f.closed {
 		return nil, f.closedErr("readdir")
 	}
+	f.fs.opMu.Lock()
+	defer f.fs.opMu.Unlock()
 	dirNames, err := f.ReadDirNames()
 	if err != nil {
 		return nil, &hackpadfs.PathError{Op: "readdir", Path: f.path, Err: err}
@@ -454,8 +473,8 @@ type dirEntry struct {
 	info     hackpadfs.FileInfo
 }
 
-func newDirEntry(fs hackpadfs.FS, basePath, name string) (*dirEntry, error) {
-	info, err := hackpadfs.Stat(fs, path.Join(basePath, name))
+func newDirEntry(fs *FS, basePath, name string) (*dirEntry, error) {
+	info, err := fs.stat(path.Join(basePath, name))
 	return &dirEntry{
 		baseName: name,
 		info:     info,
@@ -482,6 +501,8 @@ func (f *file) Chmod(mode hackpadfs.FileMode) error {
 	if f.closed {
 		return f.closedErr("chmod")
 	}
+	f.fs.opMu.Lock()
+	defer f.fs.opMu.Unlock()
 	newMode := (f.Mode() & ^chmodBits) | (mode & chmodBits)
 	f.modeOverride = &newMode
 	return f.saveIfLinked()
